@@ -225,22 +225,14 @@ theorem C14_model_meets_spec_form (inflate : Bytes → Option Bytes) (typ msg lo
 
 /-! ## 3. HTTP-Redirect and the artifact URL (`pack.add_query`) -/
 
-/-- Full statement (every destination): the receiver's query parameters are the destination's own
-    followed by exactly the intended ones.  False of the code as it is for one class of
-    destinations only: a non-empty query that ends in `?` (`C14/add-query-trailing-question-mark`).
-    Fragments and empty queries are handled. -/
-def C14_url_inert_full : Prop :=
-  ∀ (D : Deflate) (typ msg loc rs url : Bytes), (typ = sSAMLRequest ∨ typ = sSAMLResponse) →
-    IsBytes msg → IsBytes rs → redirectUrl D.deflate typ msg loc rs = some url →
-    parseQsl (queryOf url) = parseQsl (queryOf loc) ++ withRelay (typ, b64encode (D.deflate msg)) rs
-
-/-- **Inertness of the URL** for every destination — with or without `#fragment`, with no query,
-    an empty query or an existing query — whose own query does not end in `?` (`locOk`), ANY relay
-    state and message: no caller string adds, removes or changes a query parameter.  (`queryOf`
-    is what the receiver reads: the text between the first `?` and the first `#`.) -/
-theorem C14_url_inert_partial (D : Deflate) (typ msg loc rs url : Bytes)
+/-- **Inertness of the URL**, full strength: for EVERY destination — with or without `#fragment`,
+    with no query, an empty query, a query ending in `?` or `&`, or any other existing query —
+    ANY relay state and message, the receiver's query parameters are the destination's own followed
+    by exactly the intended ones: no caller string adds, removes or changes a query parameter.
+    (`queryOf` is what the receiver reads: the text between the first `?` and the first `#`.) -/
+theorem C14_url_inert (D : Deflate) (typ msg loc rs url : Bytes)
     (ht : typ = sSAMLRequest ∨ typ = sSAMLResponse) (hmsg : IsBytes msg) (hrs : IsBytes rs)
-    (hloc : locOk loc = true) (h : redirectUrl D.deflate typ msg loc rs = some url) :
+    (h : redirectUrl D.deflate typ msg loc rs = some url) :
     parseQsl (queryOf url) = parseQsl (queryOf loc) ++ withRelay (typ, b64encode (D.deflate msg)) rs := by
   have htb : IsBytes typ := by rcases ht with e | e <;> subst e <;> decide
   have hargs : redirectArgs D.deflate typ msg rs = some (withRelay (typ, b64encode (D.deflate msg)) rs) := by
@@ -249,38 +241,31 @@ theorem C14_url_inert_partial (D : Deflate) (typ msg loc rs url : Bytes)
   cases Option.some.inj h
   have hround := withRelay_roundtrip typ (b64encode (D.deflate msg)) rs htb
     (b64encode_isBytes _ (D.isBytes msg hmsg)) (b64encode_ne_nil _ (D.nonempty msg)) hrs
-  have := addQuery_spec loc _ _ (urlencode_no_hash _) hround hloc
+  have := addQuery_spec loc _ _ (urlencode_no_hash _) hround
   simpa [specUrl] using this
 
-/-- Witness: destination `/?a?` (its query `a?` ends in `?`). -/
-theorem C14_url_inert_counterexample : ¬ C14_url_inert_full := by
-  intro h
-  have := h toyDeflate sSAMLRequest [60] [47, 63, 97, 63] [] _ (Or.inl rfl) (by decide) (by decide) rfl
-  revert this
-  decide
-
-/-- The destinations that used to fail (fixed in 1ca38117) satisfy the side condition: a fragment,
-    a destination ending in `?`, a fragment after an empty query. -/
-example : locOk [104, 47, 35, 102] = true ∧ locOk [104, 47, 63] = true ∧ locOk [104, 63, 35, 63] = true ∧
-    locOk [104, 47, 63, 97, 61, 98] = true ∧ locOk [104, 47] = true ∧ locOk [104, 63, 97, 63] = false := by
-  decide
-
-/-- … and they are delivered: the old failing inputs, evaluated. -/
+/-- The destinations that used to fail (fixed in 1ca38117 / d815dc9a), evaluated: a fragment, a
+    destination ending in `?`, a query ending in `?`, `??`. -/
 example :
     parseQsl (queryOf ((redirectUrl toyDeflate.deflate sSAMLRequest [60] [104, 47, 35, 102] [114]).getD [])) =
       withRelay (sSAMLRequest, b64encode (toyDeflate.deflate [60])) [114] ∧
     parseQsl (queryOf ((redirectUrl toyDeflate.deflate sSAMLRequest [60] [104, 47, 63] []).getD [])) =
+      withRelay (sSAMLRequest, b64encode (toyDeflate.deflate [60])) [] ∧
+    parseQsl (queryOf ((redirectUrl toyDeflate.deflate sSAMLRequest [60] [47, 63, 97, 61, 98, 63] []).getD [])) =
+      ([97], [98, 63]) :: withRelay (sSAMLRequest, b64encode (toyDeflate.deflate [60])) [] ∧
+    parseQsl (queryOf ((redirectUrl toyDeflate.deflate sSAMLRequest [60] [47, 63, 63] []).getD [])) =
       withRelay (sSAMLRequest, b64encode (toyDeflate.deflate [60])) [] := by decide
 
-/-- **Round trip through the redirect URL** (under the `Deflate` law and `locOk`): the receiver
-    finds the destination's own parameters, then the SAML parameter whose value `Entity.unravel`
-    turns back into the message byte for byte, then RelayState iff one was given, unchanged. -/
+/-- **Round trip through the redirect URL** (under the `Deflate` law), every destination: the
+    receiver finds the destination's own parameters, then the SAML parameter whose value
+    `Entity.unravel` turns back into the message byte for byte, then RelayState iff one was given,
+    unchanged. -/
 theorem C14_redirect_roundtrip (D : Deflate) (typ msg loc rs url : Bytes)
     (ht : typ = sSAMLRequest ∨ typ = sSAMLResponse) (hmsg : IsBytes msg) (hrs : IsBytes rs)
-    (hloc : locOk loc = true) (h : redirectUrl D.deflate typ msg loc rs = some url) :
+    (h : redirectUrl D.deflate typ msg loc rs = some url) :
     specRedirect D.inflate typ msg loc rs url = true := by
   apply specRedirect_of_params D.inflate typ msg loc rs url (b64encode (D.deflate msg))
-    (C14_url_inert_partial D typ msg loc rs url ht hmsg hrs hloc h)
+    (C14_url_inert D typ msg loc rs url ht hmsg hrs h)
   have hne : typ ≠ sSAMLart := by rcases ht with e | e <;> subst e <;> decide
   simp only [hne, if_false]
   unfold specRedirectDelivery
@@ -290,34 +275,24 @@ theorem C14_redirect_roundtrip (D : Deflate) (typ msg loc rs url : Bytes)
 /-- The model's URL satisfies the specification the driver evaluates on the implementation. -/
 theorem C14_model_meets_spec_redirect (D : Deflate) (typ msg loc rs url : Bytes)
     (ht : typ = sSAMLRequest ∨ typ = sSAMLResponse) (hmsg : IsBytes msg) (hrs : IsBytes rs)
-    (hloc : locOk loc = true) (h : redirectUrl D.deflate typ msg loc rs = some url) :
+    (h : redirectUrl D.deflate typ msg loc rs = some url) :
     specRedirect D.inflate typ msg loc rs url = true :=
-  C14_redirect_roundtrip D typ msg loc rs url ht hmsg hrs hloc h
+  C14_redirect_roundtrip D typ msg loc rs url ht hmsg hrs h
 
-/-- Full statement for the artifact URL (`use_http_artifact` calls the same `add_query`): false for
-    the same single class of destinations. -/
-def C14_artifact_url_full : Prop :=
-  ∀ (art loc rs : Bytes), IsBytes art → art ≠ [] → IsBytes rs →
-    specUrl loc (withRelay (sSAMLart, art) rs) (artifactUrl art loc rs) = true
-
-/-- The artifact URL: same statement for the `SAMLart` parameter, fragments and empty queries
-    included. -/
-theorem C14_artifact_url_partial (art loc rs : Bytes) (hart : IsBytes art) (hne : art ≠ []) (hrs : IsBytes rs)
-    (hloc : locOk loc = true) :
+/-- The artifact URL (`use_http_artifact` calls the same `add_query`), full strength: same
+    statement for the `SAMLart` parameter, every destination. -/
+theorem C14_artifact_url (art loc rs : Bytes) (hart : IsBytes art) (hne : art ≠ []) (hrs : IsBytes rs) :
     specUrl loc (withRelay (sSAMLart, art) rs) (artifactUrl art loc rs) = true ∧
       specArtifactUrl art loc rs (artifactUrl art loc rs) = true := by
-  have := addQuery_spec loc _ _ (urlencode_no_hash _) (withRelay_roundtrip sSAMLart art rs isBytes_SAMLart hart hne hrs) hloc
+  have := addQuery_spec loc _ _ (urlencode_no_hash _) (withRelay_roundtrip sSAMLart art rs isBytes_SAMLart hart hne hrs)
   exact ⟨this, by simp [specArtifactUrl, artifactUrl, this]⟩
 
-theorem C14_artifact_url_counterexample : ¬ C14_artifact_url_full := by
-  intro h
-  have := h [65] [47, 63, 63] [] (by decide) (by decide) (by decide)
-  revert this
-  decide
+example : specUrl [47, 63, 120, 61, 49, 35, 102] (withRelay (sSAMLart, [65]) [114])
+    (artifactUrl [65] [47, 63, 120, 61, 49, 35, 102] [114]) = true := by decide
 
 /-- `http_redirect_message(typ="SAMLart")`: the artifact travels verbatim. -/
 theorem C14_redirect_art_roundtrip (deflate : Bytes → Bytes) (inflate : Bytes → Option Bytes) (art loc rs url : Bytes)
-    (hart : IsBytes art) (hne : art ≠ []) (hrs : IsBytes rs) (hloc : locOk loc = true)
+    (hart : IsBytes art) (hne : art ≠ []) (hrs : IsBytes rs)
     (h : redirectUrl deflate sSAMLart art loc rs = some url) :
     specRedirect inflate sSAMLart art loc rs url = true := by
   have hargs : redirectArgs deflate sSAMLart art rs = some (withRelay (sSAMLart, art) rs) := by
@@ -325,7 +300,7 @@ theorem C14_redirect_art_roundtrip (deflate : Bytes → Bytes) (inflate : Bytes 
     simp [redirectArgs, h1]
   simp only [redirectUrl, hargs] at h
   cases Option.some.inj h
-  have := addQuery_spec loc _ _ (urlencode_no_hash _) (withRelay_roundtrip sSAMLart art rs isBytes_SAMLart hart hne hrs) hloc
+  have := addQuery_spec loc _ _ (urlencode_no_hash _) (withRelay_roundtrip sSAMLart art rs isBytes_SAMLart hart hne hrs)
   apply specRedirect_of_params inflate sSAMLart art loc rs _ art (by simpa [specUrl] using this)
   simp
 
